@@ -87,8 +87,18 @@ CHECKS = {
    note="Third-party adapters (zap, logrus, hclog, slog, logr, diode ring buffer, file/JSON loggers) are not encoded; memory is sequentially consistent; not natively replayable.",
    technique="symbolic execution of go/ssa on a cooperative scheduler, DFS over scheduling decisions with a preemption bound (bounded model checking)",
    design="5/C13"),
+
+ "C06": dict(
+   text="Bounded exhaustive exploration of programs of 1 (thorough 1..2) filesystem-API calls -- MkDir, WriteFile, Rm, CleanDir, TouchTempFile, Copy, CopyToDirectory, Move, IsDir, Exists, Ls, ReadFile -- over the path alphabet {/a, /a/b, /a/b/c, /d, /d/e} from 5 initial trees (so that source = / parent of / inside the destination, missing/existing entries and file-versus-directory conflicts occur), real code on afero's real MemMapFs behind a recording wrapper: every call terminates (<= 400 backend operations), leaves no handle open, changes nothing but its destination (plus newly created ancestor directories; for Move also the source), a copy leaves its source untouched, query calls change nothing and answer exactly what the tree says. Three known-finding regions are recorded (copy into own subtree diverges; move into own subtree crashes the in-memory backend; entries created beneath a file on the in-memory backend).",
+   note="Only the second sentence of the property is claimed (plus exact answers of the query calls): agreement of return values and resulting trees with a reference model of cp -r / mv on BOTH backends is not claimed -- the OS backend cannot be executed symbolically and the doc comments leave Copy's destination resolution open.",
+   technique="symbolic execution of go/ssa with DFS over programs x paths x initial trees (bounded model checking), native replay",
+   design="5/C06"),
 }
-NA = {}
+NA = {
+ "C05": "the property is about operating-system process groups, signals and inherited pipes: that state lives in the kernel, not in Go code that could be encoded; the Go side (exec.CommandContext, Setpgid, a delayed kill) only configures kernel behaviour, so a symbolic execution would verify stubs of my own making",
+ "C15": "configuration loading runs through viper, mapstructure, pflag and godotenv, i.e. deep reflection over arbitrary struct types and the process environment; the engine models only a sliver of reflect and modelling viper would check my model, not the code",
+ "C16": "a Store/Fetch of the shared cache chains zip (deflate), xxhash, UUID generation, temp directories and the file lock across real crash semantics of a filesystem; once all of those are stubbed the substance of the property (completeness of what a Fetch installs across crashes and concurrent clients) is no longer in the encoded part; the lock and the archive code it builds on are covered by C01/C17 and C02/C03/C07",
+}
 def main():
     checks=[]
     for pid in sorted(CHECKS):
